@@ -1,3 +1,3 @@
-prop("C17", files={"spec": ["vf_c17_ids_test.go"]},
+prop("C17", files={"spec": ["vf_c17_ids_test.go"], "root": ["vf_c17_limits_test.go"]},
      fuzz=[("spec", "FuzzVF_C17_ids", 120)],
      assumptions=[])
